@@ -83,13 +83,23 @@ theorem C04_copy (b : Box α) : b.copy = b := rfl
 theorem C04_empty (b : Box α) : b.empty = true ↔ NoPoint b := by
   rw [model_empty_eq, emptyB_iff]
 
-/-- **C04_overlaps.** For boxes that have points, `Overlaps` is true exactly when the closed boxes
-share a point. -/
-theorem C04_overlaps (a b : Box α) (ha : emptyB a = false) (hb : emptyB b = false) :
-    a.overlaps b = true ↔ SharePoint a b := by
+/-- **C04_overlaps.** For all boxes (with or without points): `Overlaps` is true exactly when the
+closed boxes share a point. -/
+theorem C04_overlaps (a b : Box α) : a.overlaps b = true ↔ SharePoint a b := by
+  simp only [Box.overlaps, model_empty_eq]
+  cases ha : emptyB a with
+  | true =>
+    simp only [Bool.not_true, Bool.false_and, Bool.false_eq_true, false_iff]
+    rintro ⟨p, hp, _⟩; exact (emptyB_iff a).1 ha p hp
+  | false =>
+  cases hb : emptyB b with
+  | true =>
+    simp only [Bool.not_true, Bool.and_false, Bool.false_and, Bool.false_eq_true, false_iff]
+    rintro ⟨p, _, hp⟩; exact (emptyB_iff b).1 hb p hp
+  | false =>
   obtain ⟨ax, ay⟩ := (not_emptyB a).1 ha
   obtain ⟨bx, by'⟩ := (not_emptyB b).1 hb
-  simp only [Box.overlaps, Bool.and_eq_true, decide_eq_true_eq, SharePoint, mem]
+  simp only [Bool.not_false, Bool.true_and, Bool.and_eq_true, decide_eq_true_eq, SharePoint, mem]
   constructor
   · rintro ⟨⟨⟨h1, h2⟩, h3⟩, h4⟩
     exact ⟨⟨max a.mn.x b.mn.x, max a.mn.y b.mn.y⟩,
@@ -97,15 +107,6 @@ theorem C04_overlaps (a b : Box α) (ha : emptyB a = false) (hb : emptyB b = fal
       ⟨le_max_right _ _, max_le h1 bx, le_max_right _ _, max_le h2 by'⟩⟩
   · rintro ⟨p, ⟨a1, a2, a3, a4⟩, ⟨b1, b2, b3, b4⟩⟩
     exact ⟨⟨⟨le_trans a1 b2, le_trans a3 b4⟩, le_trans b1 a2⟩, le_trans b3 a4⟩
-
-/-- Without the hypothesis the statement is false: the empty box "overlaps" the whole plane. -/
-theorem C04_overlaps_emptybox_counterexample (h : (⊥ : α) < ⊤) :
-    (Box.new : Box α).overlaps ⟨⟨⊥, ⊥⟩, ⟨⊤, ⊤⟩⟩ = true ∧ ¬ SharePoint (Box.new : Box α) ⟨⟨⊥, ⊥⟩, ⟨⊤, ⊤⟩⟩ := by
-  constructor
-  · simp [Box.overlaps, Box.new, pinf_eq, ninf_eq]
-  · rintro ⟨p, ⟨h1, h2, _, _⟩, _⟩
-    simp only [Box.new, pinf_eq, ninf_eq] at h1 h2
-    exact absurd (le_trans h1 h2) (not_le.mpr h)
 
 theorem lo_hi_area (a b : Box α) :
     HasCommonArea a b ↔ (max a.mn.x b.mn.x < min a.mx.x b.mx.x ∧ max a.mn.y b.mn.y < min a.mx.y b.mx.y) := by
@@ -150,9 +151,10 @@ theorem C04_intersection (a b : Box α) :
 def cw (a b : Box α) : Box α :=
   ⟨⟨min a.mn.x b.mn.x, min a.mn.y b.mn.y⟩, ⟨max a.mx.x b.mx.x, max a.mx.y b.mx.y⟩⟩
 
-theorem extend_nonempty (a b : Box α) (hb : emptyB b = false) : a.extend (some b) = cw a b := by
+theorem extend_nonempty (a b : Box α) (ha : emptyB a = false) (hb : emptyB b = false) :
+    a.extend (some b) = cw a b := by
   obtain ⟨ex, ey⟩ := (not_emptyB b).1 hb
-  simp only [Box.extend, model_empty_eq, hb, Bool.false_eq_true, if_false, Box.extendPoint, cw]
+  simp only [Box.extend, model_empty_eq, ha, hb, Bool.false_eq_true, if_false, Box.extendPoint, cw]
   have e1 : min (min a.mn.x b.mn.x) b.mx.x = min a.mn.x b.mn.x :=
     min_eq_left (le_trans (min_le_right _ _) ex)
   have e2 : min (min a.mn.y b.mn.y) b.mx.y = min a.mn.y b.mn.y :=
@@ -160,6 +162,13 @@ theorem extend_nonempty (a b : Box α) (hb : emptyB b = false) : a.extend (some 
   have e3 : max (max a.mx.x b.mn.x) b.mx.x = max a.mx.x b.mx.x := by rw [max_assoc, max_eq_right ex]
   have e4 : max (max a.mx.y b.mn.y) b.mx.y = max a.mx.y b.mx.y := by rw [max_assoc, max_eq_right ey]
   rw [e1, e2, e3, e4]
+
+theorem extend_empty_right (a b : Box α) (hb : emptyB b = true) : a.extend (some b) = a := by
+  simp [Box.extend, model_empty_eq, hb]
+
+theorem extend_empty_left (a b : Box α) (ha : emptyB a = true) (hb : emptyB b = false) :
+    a.extend (some b) = b := by
+  simp [Box.extend, model_empty_eq, ha, hb]
 
 theorem cw_new_right (a : Box α) : cw a Box.new = a := by
   simp [cw, Box.new, pinf_eq, ninf_eq]
@@ -169,14 +178,25 @@ theorem cw_new_left (a : Box α) : cw Box.new a = a := by
 
 theorem new_eq_emptyBox : (Box.new : Box α) = emptyBox := rfl
 
-/-- for a canonical argument `Extend` is the componentwise formula -/
-theorem extend_canon (a b : Box α) (hb : Canon b) : a.extend (some b) = cw a b := by
-  rcases hb with hb | hb
-  · exact extend_nonempty a b hb
-  · rw [← new_eq_emptyBox] at hb; subst hb
-    cases he : emptyB (Box.new : Box α) with
-    | false => exact extend_nonempty a _ he
-    | true => rw [cw_new_right]; simp [Box.extend, model_empty_eq, he]
+/-- on canonical boxes `Extend` is the componentwise formula -/
+theorem extend_canon (a b : Box α) (ha : Canon a) (hb : Canon b) : a.extend (some b) = cw a b := by
+  cases hea : emptyB a with
+  | false =>
+    cases heb : emptyB b with
+    | false => exact extend_nonempty a b hea heb
+    | true =>
+      rcases hb with hb | hb
+      · simp [heb] at hb
+      · rw [extend_empty_right a b heb, hb, ← new_eq_emptyBox, cw_new_right]
+  | true =>
+    rcases ha with ha | ha
+    · simp [hea] at ha
+    · cases heb : emptyB b with
+      | false => rw [extend_empty_left a b hea heb, ha, ← new_eq_emptyBox, cw_new_left]
+      | true =>
+        rcases hb with hb | hb
+        · simp [heb] at hb
+        · rw [extend_empty_right a b heb, ha, hb, ← new_eq_emptyBox, cw_new_right]
 
 theorem canon_cw (a b : Box α) (ha : Canon a) (hb : Canon b) : Canon (cw a b) := by
   rcases ha with ha | ha
@@ -187,55 +207,48 @@ theorem canon_cw (a b : Box α) (ha : Canon a) (hb : Canon b) : Canon (cw a b) :
            le_trans (min_le_left _ _) (le_trans ey (le_max_left _ _))⟩
   · rw [← new_eq_emptyBox] at ha; subst ha; rw [cw_new_left]; exact hb
 
-theorem sub_new (c : Box α) : Sub (Box.new : Box α) c := by
-  rintro p ⟨h1, h2, h3, h4⟩
-  simp only [Box.new, pinf_eq, ninf_eq] at h1 h2 h3 h4
-  exact ⟨le_trans le_top h1, le_trans h2 bot_le, le_trans le_top h3, le_trans h4 bot_le⟩
+theorem sub_refl (a : Box α) : Sub a a := fun _ h => h
+theorem sub_trans {a b c : Box α} (h1 : Sub a b) (h2 : Sub b c) : Sub a c := fun p h => h2 p (h1 p h)
 
-theorem canon_sub_iff (a c : Box α) (ha : Canon a) :
-    Sub a c ↔ (emptyB a = true ∨ (c.mn.x ≤ a.mn.x ∧ c.mn.y ≤ a.mn.y ∧ a.mx.x ≤ c.mx.x ∧ a.mx.y ≤ c.mx.y)) := by
-  cases he : emptyB a with
-  | true => simp [sub_of_empty a c he]
-  | false => simp [sub_iff_of_nonempty a c he]
-
-/-- **C04_extend_join.** For a canonical receiver `a` (a box with a point, or `NewBounds()`) and
-*any* argument `b` (nil excluded), `a.Extend(b)` is the least upper bound of `a` and `b` in the
-inclusion order of boxes, and it is again canonical. -/
-theorem C04_extend_join (a b : Box α) (ha : Canon a) :
-    IsJoin a b (a.extend (some b)) ∧ Canon (a.extend (some b)) := by
+/-- **C04_extend_join.** For ALL boxes `a`, `b` (with or without points, canonical or not; nil
+excluded): `a.Extend(b)` is the least upper bound of `a` and `b` in the inclusion order of boxes. -/
+theorem C04_extend_join (a b : Box α) : IsJoin a b (a.extend (some b)) := by
   cases hb : emptyB b with
   | true =>
-    have e : a.extend (some b) = a := by simp [Box.extend, model_empty_eq, hb]
-    rw [e]
-    exact ⟨⟨fun p h => h, sub_of_empty b a hb, fun c h _ => h⟩, ha⟩
+    rw [extend_empty_right a b hb]
+    exact ⟨sub_refl a, sub_of_empty b a hb, fun c h _ => h⟩
   | false =>
-    rw [extend_nonempty a b hb]
-    refine ⟨?_, canon_cw a b ha (Or.inl hb)⟩
+  cases ha : emptyB a with
+  | true =>
+    rw [extend_empty_left a b ha hb]
+    exact ⟨sub_of_empty a b ha, sub_refl b, fun c _ h => h⟩
+  | false =>
+    rw [extend_nonempty a b ha hb]
     obtain ⟨bx, by'⟩ := (not_emptyB b).1 hb
     have hj : emptyB (cw a b) = false := by
       rw [not_emptyB]
       exact ⟨le_trans (min_le_right _ _) (le_trans bx (le_max_right _ _)),
              le_trans (min_le_right _ _) (le_trans by' (le_max_right _ _))⟩
     refine ⟨?_, ?_, ?_⟩
-    · rcases ha with ha | ha
-      · rw [sub_iff_of_nonempty a _ ha]
-        exact ⟨min_le_left _ _, min_le_left _ _, le_max_left _ _, le_max_left _ _⟩
-      · rw [← new_eq_emptyBox] at ha; subst ha; exact sub_new _
+    · rw [sub_iff_of_nonempty a _ ha]
+      exact ⟨min_le_left _ _, min_le_left _ _, le_max_left _ _, le_max_left _ _⟩
     · rw [sub_iff_of_nonempty b _ hb]
       exact ⟨min_le_right _ _, min_le_right _ _, le_max_right _ _, le_max_right _ _⟩
     · intro c hac hbc
       rw [sub_iff_of_nonempty _ c hj]
       rw [sub_iff_of_nonempty b c hb] at hbc
+      rw [sub_iff_of_nonempty a c ha] at hac
       obtain ⟨b1, b2, b3, b4⟩ := hbc
-      rcases ha with ha | ha
-      · rw [sub_iff_of_nonempty a c ha] at hac
-        obtain ⟨a1, a2, a3, a4⟩ := hac
-        exact ⟨le_min a1 b1, le_min a2 b2, max_le a3 b3, max_le a4 b4⟩
-      · rw [← new_eq_emptyBox] at ha; subst ha
-        rw [cw_new_left]; exact ⟨b1, b2, b3, b4⟩
+      obtain ⟨a1, a2, a3, a4⟩ := hac
+      exact ⟨le_min a1 b1, le_min a2 b2, max_le a3 b3, max_le a4 b4⟩
 
-/-- **C04_extend_laws.** On canonical boxes `Extend` is commutative, associative and idempotent, the
-empty box is its identity, and a nil argument changes nothing. -/
+/-- `Extend` keeps boxes canonical (has a point, or is exactly `NewBounds()`). -/
+theorem C04_extend_canon (a b : Box α) (ha : Canon a) (hb : Canon b) : Canon (a.extend (some b)) := by
+  rw [extend_canon a b ha hb]; exact canon_cw a b ha hb
+
+/-- **C04_extend_laws.** On canonical boxes (every box the library produces) `Extend` is commutative,
+associative and idempotent *as an equation between boxes*, the empty box is its identity on both
+sides, and a nil argument changes nothing. -/
 theorem C04_extend_laws (a b c : Box α) (ha : Canon a) (hb : Canon b) (hc : Canon c) :
     a.extend (some b) = b.extend (some a) ∧
     (a.extend (some b)).extend (some c) = a.extend (some (b.extend (some c))) ∧
@@ -243,15 +256,33 @@ theorem C04_extend_laws (a b c : Box α) (ha : Canon a) (hb : Canon b) (hc : Can
     a.extend (some Box.new) = a ∧ (Box.new : Box α).extend (some a) = a ∧
     a.extend none = a := by
   have hn : Canon (Box.new : Box α) := Or.inr rfl
-  have hbc : Canon (b.extend (some c)) := by rw [extend_canon b c hc]; exact canon_cw b c hb hc
-  rw [extend_canon a b hb, extend_canon b a ha, extend_canon _ c hc, extend_canon b c hc,
-      extend_canon a a ha, extend_canon a _ hn, extend_canon _ a ha]
-  rw [extend_canon b c hc] at hbc
-  rw [extend_canon a _ hbc]
+  have hab := C04_extend_canon a b ha hb
+  have hbc := C04_extend_canon b c hb hc
+  rw [extend_canon _ c hab hc, extend_canon a _ ha hbc, extend_canon a b ha hb, extend_canon b a hb ha,
+      extend_canon b c hb hc, extend_canon a a ha ha, extend_canon a _ ha hn, extend_canon _ a hn ha]
   refine ⟨?_, ?_, ?_, cw_new_right a, cw_new_left a, rfl⟩
   · simp [cw, min_comm, max_comm]
   · simp [cw, min_assoc, max_assoc]
   · simp [cw]
+
+/-- the same point set -/
+def SameSet (a b : Box α) : Prop := Sub a b ∧ Sub b a
+
+/-- **C04_extend_laws_sets.** For ALL boxes, including arbitrary empty structs, the join laws hold
+as equations between point sets (pairs and triples of boxes). -/
+theorem C04_extend_laws_sets (a b c : Box α) :
+    SameSet (a.extend (some b)) (b.extend (some a)) ∧
+    SameSet ((a.extend (some b)).extend (some c)) (a.extend (some (b.extend (some c)))) ∧
+    SameSet (a.extend (some a)) a := by
+  obtain ⟨ab1, ab2, ab3⟩ := C04_extend_join a b
+  obtain ⟨ba1, ba2, ba3⟩ := C04_extend_join b a
+  obtain ⟨bc1, bc2, bc3⟩ := C04_extend_join b c
+  obtain ⟨l1, l2, l3⟩ := C04_extend_join (a.extend (some b)) c
+  obtain ⟨r1, r2, r3⟩ := C04_extend_join a (b.extend (some c))
+  obtain ⟨aa1, _, aa3⟩ := C04_extend_join a a
+  refine ⟨⟨ab3 _ ba2 ba1, ba3 _ ab2 ab1⟩, ⟨?_, ?_⟩, ⟨aa3 a (sub_refl a) (sub_refl a), aa1⟩⟩
+  · exact l3 _ (ab3 _ r1 (sub_trans bc1 r2)) (sub_trans bc2 r2)
+  · exact r3 _ (sub_trans ab1 l1) (bc3 _ (sub_trans ab2 l1) l2)
 
 /-- An empty argument of any shape (not only `NewBounds()`) is ignored. -/
 theorem C04_extend_empty (a b : Box α) (hb : b.empty = true) : a.extend (some b) = a := by
@@ -294,6 +325,12 @@ theorem C04_bounds (g : Geom α) (h : noNil g = true) (hb : boxesNonEmpty g = tr
     ∃ b, boundsG g = .ok b ∧ IsEnvelope (vertices g) b := by
   obtain ⟨b, e, hi⟩ := bounds_inv g h hb
   exact ⟨b, e, hi.isEnvelope⟩
+
+/-- The statement without `boxesNonEmpty` is false (`C04_bounds_emptybox_counterexample`, known finding
+"a *Bounds without points still has Len() = 4"); this is the strongest true form.
+Full statement, not provable: `noNil g → ∃ b, boundsG g = .ok b ∧ IsEnvelope (vertices g) b`. -/
+theorem C04_bounds_partial (g : Geom α) (h : noNil g = true) (hb : boxesNonEmpty g = true) :
+    ∃ b, boundsG g = .ok b ∧ IsEnvelope (vertices g) b := C04_bounds g h hb
 
 /-- … in particular `Bounds()` is empty iff there is no vertex (given `-Inf < +Inf`). -/
 theorem C04_bounds_empty_iff (hne : (⊥ : α) < ⊤) (g : Geom α) (h : noNil g = true)
